@@ -500,6 +500,9 @@ Qed.
 
 (* ---------- induction over histories, generic in the invariant and the per-block judgement ---------- *)
 
+Lemma accepted_len_G F0 s nsamp npre : s_G (accepted_len F0 s nsamp npre) = s_G s.
+Proof. unfold accepted_len. destruct (_ && _); reflexivity. Qed.
+
 Section History.
 Variable F0 : Z.
 Variable I : dsp -> sstate -> Prop.
@@ -511,11 +514,9 @@ Hypothesis H_block : forall d s sg, I d s -> Q (Block sg) -> seg_first sg = F0 +
     P (block_info F0 s sg recs) /\
     I d' (after_block_ss F0 s sg (map r_frame recs)).
 Hypothesis H_trig : forall d s ts, I d s -> Q (CfgTrig ts) ->
-  I (cfg_trig d ts) (new_epoch F0 s (s_npre s) (s_nsamp s) ts).
+  I (fst (cfg_trig d ts)) (if snd (cfg_trig d ts) then s else new_epoch F0 s (s_npre s) (s_nsamp s) ts).
 Hypothesis H_len : forall d s nsamp npre, I d s -> Q (CfgLen nsamp npre) ->
-  I (fst (cfg_len d nsamp npre))
-    (if lengths_ok npre nsamp then new_epoch F0 s npre nsamp (s_ts s)
-     else new_epoch F0 s (s_npre s) (s_nsamp s) (s_ts s)).
+  I (fst (cfg_len d nsamp npre)) (if lengths_ok npre nsamp then accepted_len F0 s nsamp npre else s).
 
 Lemma history_ind : forall ops d s,
   I d s -> contiguous (F0 + zlen (s_G s)) ops -> Forall Q ops ->
@@ -534,14 +535,19 @@ Proof.
       * intros b [<-|Hb']; [exact HP|now apply Hb].
       * cbn [length]. now rewrite Hlen.
       * intros [Hx|Hx]; [discriminate|contradiction].
-    + cbn [contiguous] in Hc. cbn [run step combine annotate].
-      destruct (IH (cfg_trig d ts) _ (H_trig d s ts HI HQo)) as [bs [Ha [Hb [Hlen Hnp]]]]; [exact Hc|assumption|].
-      exists bs. split; [exact Ha|]. split; [exact Hb|]. split; [cbn [length]; now rewrite Hlen|].
-      intros [Hx|Hx]; [discriminate|contradiction].
+    + cbn [contiguous] in Hc. cbn [run step].
+      pose proof (H_trig d s ts HI HQo) as HI'.
+      destruct (cfg_trig d ts) as [d' err]. cbn [fst snd] in HI'. destruct err; cbn [combine annotate].
+      * destruct (IH _ _ HI') as [bs [Ha [Hb [Hlen Hnp]]]]; [exact Hc|assumption|].
+        exists bs. split; [exact Ha|]. split; [exact Hb|]. split; [cbn [length]; now rewrite Hlen|].
+        intros [Hx|Hx]; [discriminate|contradiction].
+      * destruct (IH _ _ HI') as [bs [Ha [Hb [Hlen Hnp]]]]; [exact Hc|assumption|].
+        exists bs. split; [exact Ha|]. split; [exact Hb|]. split; [cbn [length]; now rewrite Hlen|].
+        intros [Hx|Hx]; [discriminate|contradiction].
     + cbn [contiguous] in Hc. cbn [run step].
       pose proof (H_len d s nsamp npre HI HQo) as HI'.
       unfold cfg_len in *. destruct (lengths_ok npre nsamp); cbn [fst] in HI'; cbn [combine annotate].
-      * destruct (IH _ _ HI') as [bs [Ha [Hb [Hlen Hnp]]]]; [exact Hc|assumption|].
+      * destruct (IH _ _ HI') as [bs [Ha [Hb [Hlen Hnp]]]]; [rewrite accepted_len_G; exact Hc|assumption|].
         exists bs. split; [exact Ha|]. split; [exact Hb|]. split; [cbn [length]; now rewrite Hlen|].
         intros [Hx|Hx]; [discriminate|contradiction].
       * destruct (IH _ _ HI') as [bs [Ha [Hb [Hlen Hnp]]]]; [exact Hc|assumption|].
@@ -549,6 +555,21 @@ Proof.
         intros [Hx|Hx]; [discriminate|contradiction].
 Qed.
 End History.
+
+(* a request that switches edge-multi on with nmonotone beyond every record length is refused; any other request
+   covered by [op_ok] has edge-multi off and is installed *)
+Lemma cfg_trig_cases d ts :
+  3 <= d_npre d -> d_npre d + 1 <= d_nsamp d -> d_nsamp d <= max_nsamp ->
+  (ts_emulti ts = true -> max_nsamp < ts_emt_nmono ts) ->
+  (ts_emulti ts = true /\ cfg_trig d ts = (d, true)) \/
+  (ts_emulti ts = false /\ cfg_trig d ts = (cfg_trig_do d ts, false)).
+Proof.
+  intros Hp Hs Hm HQ. unfold cfg_trig. destruct (ts_emulti ts) eqn:Ee; [left|right; split; reflexivity].
+  split; [reflexivity|]. specialize (HQ eq_refl). unfold max_nsamp in *.
+  unfold emt_valid. rewrite !s32_small by lia.
+  assert (E : (ts_emt_nmono ts >? d_nsamp d - d_npre d) = true) by lia.
+  rewrite E. cbn [negb]. rewrite andb_false_r. reflexivity.
+Qed.
 
 (* ---------- C01 for the model ---------- *)
 
@@ -565,7 +586,7 @@ Proof.
   - now right.
 Qed.
 
-Lemma cfg_trig_inv1 F0 p d G ts : Inv1 F0 p d G -> ts_emulti ts = false -> Inv1 F0 p (cfg_trig d ts) G.
+Lemma cfg_trig_inv1 F0 p d G ts : Inv1 F0 p d G -> ts_emulti ts = false -> Inv1 F0 p (cfg_trig_do d ts) G.
 Proof.
   intros [H1 H2 H3 H4 H5 H6 H7] He. split; cbn; try assumption.
   apply s32_small. unfold max_nsamp in H4. lia.
@@ -596,11 +617,15 @@ Proof.
     eexists _, recs. split; [exact Hpb|]. split.
     + eapply block_records_excerpts; eauto.
     + split; [exact HI'|]. cbn. split; assumption.
-  - intros d s ts' [HI [Hn1 Hn2]] HQt. split; [|split; assumption].
-    apply cfg_trig_inv1; assumption.
+  - intros d s ts' [HI [Hn1 Hn2]] HQt. cbn [op_ok] in HQt. pose proof HI as [_ Hp3 Hs1 Hmx _ _ _].
+    destruct (cfg_trig_cases d ts' Hp3 Hs1 Hmx HQt) as [[He ->]|[He ->]]; cbn [fst snd].
+    + split; [exact HI|split; assumption].
+    + split; [|split; assumption]. apply cfg_trig_inv1; assumption.
   - intros d s nsamp' npre' [HI [Hn1 Hn2]] HQl. cbn [op_ok] in HQl.
     destruct (lengths_ok npre' nsamp') eqn:El.
-    + split; [apply cfg_len_inv1; assumption|]. unfold cfg_len. rewrite El. cbn. split; reflexivity.
+    + unfold Rel1. rewrite accepted_len_G.
+      split; [apply cfg_len_inv1; assumption|]. unfold cfg_len. rewrite El. cbn [fst]. unfold accepted_len.
+      destruct ((nsamp' =? s_nsamp s) && (npre' =? s_npre s)) eqn:Es; cbn; [split; lia|split; reflexivity].
     + unfold cfg_len. rewrite El. cbn [fst]. split; [exact HI|split; assumption].
   - split; [apply fresh_inv1; assumption|]. split; reflexivity.
   - cbn. now rewrite Z.add_0_r.
@@ -721,8 +746,9 @@ Proof.
         rewrite zlen_app. lia.
       * subst b0 bs'. destruct (IH _ _ Ea pre b post eq_refl) as [H1 [H2 H3]]. split; [exact H1|]. split; [|exact H3].
         rewrite H2. unfold after_block_ss, block_info. cbn [s_G map concat bi_seg app]. now rewrite app_assoc.
-    + destruct err; [discriminate|]. apply (IH _ _ Ha pre b post Hbs).
     + destruct err; apply (IH _ _ Ha pre b post Hbs).
+    + destruct err; [apply (IH _ _ Ha pre b post Hbs)|].
+      destruct (IH _ _ Ha pre b post Hbs) as [H1 [H2 H3]]. rewrite accepted_len_G in H2. auto.
 Qed.
 
 (* ================= sources that lose frames between blocks (no contiguity premise) ================= *)
@@ -851,13 +877,17 @@ Proof.
         cbn [gi_recs] in Hr. eapply block_records_excerptsG; eauto.
       * cbn [length]. now rewrite Hlen.
       * intros [Hx|Hx]; [discriminate|contradiction].
-    + cbn [op_ok] in HQo. cbn [run step combine annotateG].
-      assert (HI' : Inv1G p (cfg_trig d ts) G).
-      { destruct HI as [H1 H2 H3 H4 H5 H6 H7]. split; cbn; try assumption.
-        apply s32_small. unfold max_nsamp in H4. lia. }
-      destruct (IH _ _ HI' HQr) as [gs [Ha [Hb [Hlen Hnp]]]].
-      exists gs. split; [exact Ha|]. split; [exact Hb|]. split; [cbn [length]; now rewrite Hlen|].
-      intros [Hx|Hx]; [discriminate|contradiction].
+    + cbn [op_ok] in HQo. cbn [run step]. pose proof HI as [_ Hp3 Hs1 Hmx _ _ _].
+      destruct (cfg_trig_cases d ts Hp3 Hs1 Hmx HQo) as [[He ->]|[He ->]]; cbn [combine annotateG].
+      * destruct (IH _ _ HI HQr) as [gs [Ha [Hb [Hlen Hnp]]]].
+        exists gs. split; [exact Ha|]. split; [exact Hb|]. split; [cbn [length]; now rewrite Hlen|].
+        intros [Hx|Hx]; [discriminate|contradiction].
+      * assert (HI' : Inv1G p (cfg_trig_do d ts) G).
+        { destruct HI as [H1 H2 H3 H4 H5 H6 H7]. split; cbn; try assumption.
+          apply s32_small. unfold max_nsamp in H4. lia. }
+        destruct (IH _ _ HI' HQr) as [gs [Ha [Hb [Hlen Hnp]]]].
+        exists gs. split; [exact Ha|]. split; [exact Hb|]. split; [cbn [length]; now rewrite Hlen|].
+        intros [Hx|Hx]; [discriminate|contradiction].
     + cbn [op_ok] in HQo. cbn [run step]. unfold cfg_len.
       destruct (lengths_ok npre nsamp) eqn:El; cbn [combine annotateG].
       * assert (HI' : Inv1G p (mkdsp nsamp npre (d_last d) (d_stream d) (d_ts d) (s32 nsamp) (s32 npre)) G).
